@@ -7,6 +7,8 @@ from .vecdiff import *
 from .adapters import *
 from . import wakers, c15
 
+CRATES = (UT,)
+
 META = {
     "explanation": (
         "Static decision on MIR of the structural clauses of C09, for Head, Tail and Skip: R09.1 Ready(None) is produced only on the None edge of the "
